@@ -20,7 +20,7 @@ META = {
     "exhaustive": {"quick": True, "thorough": True},
     "space": {"quick": "all non-empty child masks x parent masks up to 8 bits x both end modes; all sequences up to length 6 and all subsequences", "thorough": "all mask pairs up to 10 bits x both modes (2.1M); all sequences up to length 8 (distinct elements, 3 alphabets) and all subsequences"},
     "assumptions": ["the empty child mask is excluded, as the property states"],
-    "timeout": {"quick": 600, "thorough": 3600},
+    "timeout": {"quick": 420, "thorough": 3600},
 }
 
 
